@@ -354,7 +354,7 @@ fn script_gen_base() -> ScriptGen {
         dims: vec![2, 3],
         classes: vec![ValueClass::Grid, ValueClass::Uniform],
         steps: (3, 14),
-        weights: [14, 3, 4, 8, 5, 3, 2, 0, 3, 14, 4, 5, 10, 5],
+        weights: [14, 3, 4, 8, 5, 3, 2, 0, 3, 14, 4, 5, 10, 5, 3],
         id_pool: (3, 8),
         split_after: vec![None, Some(1), Some(2)],
         n_trees: vec![None, Some(1), Some(2)],
@@ -421,7 +421,7 @@ pub fn script_props(id: &str) -> Option<ScriptProp> {
                     adjacent: true,
                     dims: vec![1, 2, 3, 8],
                     steps: (8, 40),
-                    weights: [30, 3, 3, 10, 2, 1, 1, 0, 3, 10, 2, 3, 6, 3],
+                    weights: [30, 3, 3, 10, 2, 1, 1, 0, 3, 10, 2, 3, 6, 3, 1],
                     id_pool: (6, 24),
                     split_after: vec![None, Some(1), Some(2), Some(50)],
                     n_trees: vec![None, Some(1), Some(3)],
@@ -457,7 +457,7 @@ pub fn script_props(id: &str) -> Option<ScriptProp> {
                     adjacent: true,
                     dims: vec![1, 3, 20, 64, 65, 130],
                     steps: (4, 30),
-                    weights: [30, 2, 2, 6, 1, 0, 0, 0, 1, 8, 0, 8, 5, 1],
+                    weights: [30, 2, 2, 6, 1, 0, 0, 0, 1, 8, 0, 8, 5, 1, 2],
                     id_pool: (4, 40),
                     split_after: vec![None, Some(2), Some(5)],
                     n_trees: vec![None, Some(1), Some(2)],
@@ -485,7 +485,7 @@ pub fn script_props(id: &str) -> Option<ScriptProp> {
                 gen: ScriptGen {
                     n_indexes: (1, 3),
                     steps: (4, 30),
-                    weights: [20, 8, 6, 6, 6, 6, 6, 5, 1, 8, 0, 1, 6, 2],
+                    weights: [20, 8, 6, 6, 6, 6, 6, 5, 1, 8, 0, 1, 6, 2, 0],
                     id_pool: (3, 16),
                     dims: vec![1, 2, 3, 5, 64],
                     ..script_gen_base()
